@@ -107,10 +107,11 @@ Proof. exact every_fresh. Qed.
 Print Assumptions c06_ids_unique_every.
 
 (* ... and across the wrap of the id counter: in ANY state, with the counter anywhere in
-   its range, the id a start hands out is positive and not in use — unless all 10^4
-   candidates nextID() probes are in use (then the code gives up and returns a used one). *)
+   the range of a Go int and whatever ids are in use (fewer than 2^63 - 1 of them), the id
+   a start hands out is positive and not in use: nextID() probes len(refer)+1 consecutive
+   candidates, which cannot all be in the map. *)
 Theorem c06_ids_unique_wrap : forall m d,
-  ~ exhausted (Z.to_nat 10000) (wrap64 (snext m + 1)) (srefer m) ->
+  snext m < 2 ^ 63 -> Z.of_nat (length (srefer m)) < maxid ->
   exists b id, snd (step m (Start d)) = OId b id /\ 0 < id /\ ~ In id (srefer m).
 Proof. exact start_unique_wrap. Qed.
 Print Assumptions c06_ids_unique_wrap.
